@@ -570,6 +570,10 @@ def unit_canaries(tier=None, seed=None):
 def units(tier):
     us = [Unit("_hash", unit_hash), Unit("obj2bytes", unit_obj2bytes), Unit("purity", unit_purity),
           Unit("lemma.concat_unambiguous", unit_concat), Unit("bounded.hash_seeds", unit_bounded_seeds)]
+    # the documented don't-care "lower range bound with plateau search on" is sound only if the plateau scan does not
+    # look at it (contract shared with C05/C11)
+    from . import scan_units as SU
+    us.append(Unit("compute_emodulus_vs_mindelta", SU.unit_scan, prop="C12"))
     if tier == "thorough" and not os.environ.get("VF_NO_CANARIES") and str(REPO) == "/repo":
         us.append(Unit("selftest.canaries", unit_canaries))
     return us
